@@ -72,6 +72,13 @@ AllEntries(st) == UNION {{<<d, e>> : e \in DOMAIN st.dirs[d].ents} : d \in DOMAI
 
 EntryOf(st, r) == st.dirs[r[2]].ents[r[3]]
 
+\* a directory entry is the tuple <<inode number, file type, index of the inode record (0 = none), dot, name>>
+\* with dot = 1 for ".", 2 for "..", 0 otherwise (lib/absstate.py drops the name before TLC sees the state)
+EIno(en) == en[1]
+EFt(en)  == en[2]
+EIx(en)  == en[3]
+EDot(en) == en[4]
+
 (***************************************************************************)
 (* CertOK: the reader's certificates are what they claim to be.  A failure *)
 (* here is a defect of the reader, not of the filesystem.                  *)
@@ -90,7 +97,7 @@ CertOK(st) ==
              UNION {{<<r[1], r[2], c>> : r \in Rng(st.fixed[c])} : c \in DOMAIN st.fixed}
         /\ \A k \in 1..(Len(rf) - 1) : Lt3(rf[k], rf[k + 1])
         /\ {<<rf[k][2], rf[k][3]>> : k \in DOMAIN rf} = AllEntries(st)
-        /\ \A k \in DOMAIN rf : EntryOf(st, rf[k]).ino = rf[k][1]
+        /\ \A k \in DOMAIN rf : EIno(EntryOf(st, rf[k])) = rf[k][1]
         /\ \A k \in DOMAIN inos :
              LET i == inos[k] IN
              IF i.rlo <= i.rhi
@@ -103,8 +110,8 @@ CertOK(st) ==
              /\ st.dirs[d].ix \in DOMAIN inos /\ inos[st.dirs[d].ix].ino = st.dirs[d].dir
              /\ \A e \in DOMAIN st.dirs[d].ents :
                   LET en == st.dirs[d].ents[e] IN
-                  IF en.ix = 0 THEN en.ino \notin InoNos
-                  ELSE en.ix \in DOMAIN inos /\ inos[en.ix].ino = en.ino
+                  IF EIx(en) = 0 THEN EIno(en) \notin InoNos
+                  ELSE EIx(en) \in DOMAIN inos /\ inos[EIx(en)].ino = EIno(en)
         /\ \A d \in 1..(Len(st.dirs) - 1) : st.dirs[d].dir < st.dirs[d + 1].dir
 
 (***************************************************************************)
@@ -228,12 +235,12 @@ Links(st) ==
     \* every directory entry names an in-use inode of the recorded type
     /\ \A d \in DOMAIN st.dirs : \A e \in DOMAIN st.dirs[d].ents :
          LET en == st.dirs[d].ents[e] IN
-         /\ en.ix # 0
-         /\ InUse(st, inos[en.ix])
-         /\ inos[en.ix].bit
-         /\ (en.dot = 0 => (en.ino = 2 \/ en.ino >= FirstIno(st)))
-         /\ (en.ft = 0 \/ (filetype /\ en.ft = FtOf(inos[en.ix].type)))
-         /\ ~ inos[en.ix].ea_inode
+         /\ EIx(en) # 0
+         /\ InUse(st, inos[EIx(en)])
+         /\ inos[EIx(en)].bit
+         /\ (EDot(en) = 0 => (EIno(en) = 2 \/ EIno(en) >= FirstIno(st)))
+         /\ (EFt(en) = 0 \/ (filetype /\ EFt(en) = FtOf(inos[EIx(en)].type)))
+         /\ ~ inos[EIx(en)].ea_inode
     \* every in-use directory inode was read as a directory
     /\ \A k \in UsedIx(st) : (inos[k].type = "dir" /\ ~Unlinked(st, inos[k])) => k \in DirIx
     \* the root exists
@@ -243,7 +250,7 @@ Links(st) ==
     /\ \A d \in DOMAIN st.dirs :
          LET D == st.dirs[d]
              i == inos[D.ix]
-             up == {k \in i.rlo..i.rhi : EntryOf(st, rf[k]).dot = 0}   \* entries naming D from a parent
+             up == {k \in i.rlo..i.rhi : EDot(EntryOf(st, rf[k])) = 0}   \* entries naming D from a parent
          IN  /\ D.dot = D.dir
              /\ IF D.dir = 2
                 THEN up = {} /\ D.dotdot = 2 /\ D.depth = 0
